@@ -43,7 +43,9 @@ func (u *UnifiedLoc) Copy(src, dst string) error {
 	return err
 }
 
-func (u *UnifiedLoc) Write(path string, data io.Reader) (string, error) { return u.MemLoc.Write(path, data) }
-func (u *UnifiedLoc) List() iter.Seq2[string, error]                   { return u.MemLoc.List() }
+func (u *UnifiedLoc) Write(path string, data io.Reader) (string, error) {
+	return u.MemLoc.Write(path, data)
+}
+func (u *UnifiedLoc) List() iter.Seq2[string, error] { return u.MemLoc.List() }
 
 var _ locations.StorageLocation = (*UnifiedLoc)(nil)
